@@ -62,9 +62,11 @@ pub fn mnemonic_encode(data: &[u8], word_list: &[String]) -> Vec<String> {
 pub fn mnemonic_decode(mnemonic: &[String], word_list: &[String]) -> Result<Vec<u8>, ChainGangError> {
     let mut bits = Bits::with_capacity(mnemonic.len() * 11);
     for word in mnemonic {
-        let value = match word_list.binary_search(word) {
-            Ok(value) => value,
-            Err(_) => return Err(ChainGangError::BadArgument(format!("Bad word: {}", word))),
+        // The word lists are in BIP-39 index order, which is not byte order for every language,
+        // so the index is found by position rather than by binary search.
+        let value = match word_list.iter().position(|w| w == word) {
+            Some(value) => value,
+            None => return Err(ChainGangError::BadArgument(format!("Bad word: {}", word))),
         };
         let word_bits = Bits::from_slice(&[(value >> 3) as u8, ((value & 7) as u8) << 5], 11);
         bits.append(&word_bits);
